@@ -67,6 +67,7 @@ type H struct {
 	ctxNote   string
 	bestPar   int
 	bestMode  string
+	patience  int // multiplier of the hang limits (legs whose cases legitimately run for minutes)
 	pendPar   int
 	pendMode  string
 	pendCtx   []json.RawMessage
@@ -111,6 +112,8 @@ type ReplayFile struct {
 	// longer what it was after Case had run (see Obs.Retain); the message is
 	// about Context[0]'s result.
 	Mode string `json:"mode,omitempty"`
+	// Patience > 1 multiplies the replay's hang limits (see H.Patience).
+	Patience int `json:"patience,omitempty"`
 }
 
 func envInt(name string, def int) int {
@@ -119,6 +122,11 @@ func envInt(name string, def int) int {
 	}
 	return def
 }
+
+// Patience multiplies the watchdog's limits for this leg's cases (and for the
+// replay of a case it saves): for legs whose cases legitimately run for
+// minutes.
+func (h *H) Patience(factor int) { h.mu.Lock(); h.patience = factor; h.mu.Unlock() }
 
 // Start creates the handle for one leg and arranges for stats to be flushed
 // when the test ends.
@@ -470,7 +478,7 @@ func (h *H) replayPath() string {
 }
 
 func (h *H) writeReplayLocked() {
-	rf := ReplayFile{Property: h.Prop, Leg: h.Leg, Tier: h.Tier, Seed: h.Seed, Message: h.bestMsg, Case: h.bestCase, Context: h.ctxUsed, Note: h.ctxNote, Par: h.bestPar, Mode: h.bestMode}
+	rf := ReplayFile{Property: h.Prop, Leg: h.Leg, Tier: h.Tier, Seed: h.Seed, Message: h.bestMsg, Case: h.bestCase, Context: h.ctxUsed, Note: h.ctxNote, Par: h.bestPar, Mode: h.bestMode, Patience: h.patience}
 	b, _ := json.MarshalIndent(rf, "", " ")
 	os.MkdirAll(h.ReplayTo, 0o755)
 	os.WriteFile(h.replayPath(), append(b, '\n'), 0o644)
@@ -594,13 +602,14 @@ func (h *H) startWatch() {
 			}
 			h.mu.Lock()
 			slots := append([]*curCase(nil), h.cur...)
+			pat := time.Duration(max(h.patience, 1))
 			h.mu.Unlock()
 			now, cpu := time.Now(), cpuTime()
 			for _, cc := range slots {
 				cc.mu.Lock()
 				c, st, c0 := cc.c, cc.start, cc.cpu
 				cc.mu.Unlock()
-				if c == nil || now.Sub(st) < hangWall || cpu-c0 < hangCPU {
+				if c == nil || now.Sub(st) < pat*hangWall || cpu-c0 < pat*hangCPU {
 					continue
 				}
 				msg := fmt.Sprintf("operation did not return: case still running after %v wall / %v CPU (cases of this leg cost milliseconds)", now.Sub(st).Round(time.Second), (cpu - c0).Round(time.Second))
@@ -733,7 +742,7 @@ func Rapid[C any](h *H, t *testing.T, gen func(*rapid.T) C, run RunFunc[C]) {
 				group = append(group, recentCs...) // different cases side by side
 			}
 			if m := runPar(run, group...); m != "" {
-				msg, par, stickyPar = m, len(group), true
+				msg, par, stickyPar = m, max(len(group), parWidth), true
 				if stickyGroup == nil {
 					stickyGroup = append([]C{}, group[1:]...)
 				}
@@ -1079,8 +1088,8 @@ wait:
 		case <-done:
 			break wait
 		case <-tk.C:
-			if time.Since(start) >= hangWall && cpuTime()-c0 >= hangCPU {
-				msg = "operation did not return (replay still running after 60 s wall / 45 s CPU)"
+			if pat := time.Duration(max(rf.Patience, 1)); time.Since(start) >= pat*hangWall && cpuTime()-c0 >= pat*hangCPU {
+				msg = fmt.Sprintf("operation did not return (replay still running after %v wall)", time.Since(start).Round(time.Second))
 				break wait
 			}
 		}
